@@ -283,14 +283,33 @@ def r4_node_typestate(ctx):
         kills += [b for b in sorted(f.reachable()) if not f.is_cleanup(b) and f.term(b)['k'] == 'drop' and 'LocalBox' in f.term(b)['ty'] and 'EventNode' in f.term(b)['ty']]
         if ctx.floor('node destruction sites in %s' % short(key), len(kills), 1):
             for kb in kills:
-                ok = False
-                for (sblk, cond, val) in f.guards(kb):
-                    if f.term(sblk)['k'] != 'switch':
+                # path-based: on every path that reaches the destruction, the most recent end-of-list test (`<node>.next.is_null()`)
+                # was negative and the walked pointer was not advanced after it
+                ok = True
+                n_k = 0
+                for path, outcome, decs in fn_paths(ctx, f):
+                    if kb not in path or outcome not in ('return', 'panic'):
                         continue
-                    a = atom_of(cond, val, f.switch_ty(sblk))
-                    if not (a and a[0] == 'bool' and a[2] is False and a[1][0] == 'call' and a[1][1].endswith('::is_null') and any(x[0] == 'field' and x[2] == 'next' for x in walk(a[1]))):
+                    if outcome == 'panic':
                         continue
-                    # the pointer whose `.next` was tested
+                    n_k += 1
+                    upto = path[:path.index(kb) + 1]
+                    last = None
+                    ptr_blocks = 0
+                    dmap = {}
+                    di = 0
+                    for idx, blk in enumerate(upto):
+                        t = f.term(blk)
+                        if t['k'] == 'switch' and di < len(decs) and decs[di][0] == blk:
+                            (_, a), = path_atoms(f, path, [decs[di]])
+                            di += 1
+                            if a and a[0] == 'bool' and a[1][0] == 'call' and a[1][1].endswith('::is_null') and any(x[0] == 'field' and x[2] == 'next' for x in walk(a[1])):
+                                last = (idx, blk, a[2])
+                    if last is None or last[2] is not False:
+                        ok = False
+                        continue
+                    # base pointer of the tested node
+                    sblk = last[1]
                     nul = [c for c in f.calls() if c.name.endswith('::is_null') and f.dominates(c.b, sblk) and any(x[0] == 'field' and x[2] == 'next' for x in walk(f.expr_operand(c.args[0], c.b, 'T')))]
                     base = None
                     if nul:
@@ -299,13 +318,11 @@ def r4_node_typestate(ctx):
                         o2 = st['r'].get('o') if st is not None and st['r']['k'] == 'use' else None
                         if o2 is not None and o2.get('k') in ('copy', 'move') and o2['p']['pr']:
                             base = o2['p']['l']
-                    if base is None:
-                        ok = True   # tested through a box / reference that is not reassigned (pop_min)
-                        break
-                    redefs = [d for d in f._defs() if d[0] == base and d[1] in f.reach_from(sblk) and kb in f.reach_from(d[1]) and d[1] not in (sblk, kb) and not back_only(f, d[1], kb, sblk)]
-                    if not redefs:
-                        ok = True
-                        break
+                    if base is not None:
+                        after = upto[last[0] + 1:]
+                        if any(d[0] == base and d[1] in after for d in f._defs()):
+                            ok = False
+                ok = ok and n_k >= 1
                 ctx.check(ok, 'sentinel-never-freed:%s' % key.split('::')[-1],
                           '%s: a node is destroyed only after it was found to have a successor (it is not the tail sentinel, which the list still owns): the end-of-list test precedes every inspection that can lead to a removal'
                           % short(key), f.where(kb))
